@@ -391,6 +391,28 @@ def reader_keys(fn: ast.AST, res: KeyResolver) -> Tuple[Set[str], List[str]]:
             recv = ast.unparse(n.func.value)
             if recv.endswith('name') or recv == 'name':
                 keys.add(n.args[0].value + '*')
+        elif isinstance(n, ast.Call) and isinstance(n.func, ast.Attribute) and n.func.attr in ('match', 'fullmatch', 'search') and n.args \
+                and (ast.unparse(n.args[-1]).endswith('name') or ast.unparse(n.args[-1]) == 'name'):
+            # key recognised by a regular expression: `_ROW_KEY.match(prop.name)` / `re.match(r'row(\d+)', prop.name)`
+            pat = None
+            if isinstance(n.func.value, ast.Name) and n.func.value.id != 're':
+                try:
+                    pv = res.mod.global_assign(n.func.value.id)
+                except Exception:
+                    pv = None
+                if isinstance(pv, ast.Call) and pv.args and isinstance(pv.args[0], ast.Constant) and isinstance(pv.args[0].value, str):
+                    pat = pv.args[0].value
+            elif len(n.args) == 2 and isinstance(n.args[0], ast.Constant) and isinstance(n.args[0].value, str):
+                pat = n.args[0].value
+            if pat is None:
+                unknown.append(ast.unparse(n)[:60])
+            else:
+                import re as _re
+                m_ = _re.match(r'\^?([A-Za-z0-9_]+)', pat)
+                if m_ and n.func.attr != 'search':
+                    keys.add(m_.group(1) + ('*' if len(m_.group(0)) < len(pat) else ''))
+                else:
+                    unknown.append(ast.unparse(n)[:60])
         elif isinstance(n, ast.Compare) and len(n.ops) == 1:
             l, r = n.left, n.comparators[0]
             def is_name(x: ast.AST) -> bool:
